@@ -2,6 +2,7 @@
 package c05
 
 import (
+	"bytes"
 	"fmt"
 	"os"
 	"reflect"
@@ -32,6 +33,8 @@ func TestMain(m *testing.M) {
 	ev.Main(m, "C05")
 }
 
+var lastEnc []byte
+var lastMu sync.Mutex
 var sharedMsg [64]byte
 var sharedMu sync.Mutex
 
@@ -124,6 +127,26 @@ func decideRTNoZone(c rtCase) (*rp.Fail, string, bool) {
 			fail = rp.Failf("codec.Marshal/error", "%s: Marshal of an in-domain value failed: %v (%v)", typeName, err, before)
 			return
 		}
+		// an encoding belongs to the caller: appending to the PREVIOUS encoding (a trailer, a batch of messages) must not reach
+		// into this one, and this one has no spare capacity that the next one lives in
+		{
+			snapshot := append([]byte(nil), enc...)
+			lastMu.Lock()
+			if lastEnc != nil {
+				lastEnc = append(lastEnc, 0x0d, 0x0a, 0xa5, 0x5a, 0xff, 0xff, 0xff, 0xff)
+				for i := range lastEnc[:8] {
+					lastEnc[i] ^= 0xff
+				}
+			}
+			lastEnc = enc
+			same := bytes.Equal(enc, snapshot)
+			lastMu.Unlock()
+			if !same {
+				fail = rp.Failf("codec.Marshal/result-shared-between-calls", "%s: the encoding %x changed to %x when the caller appended to / wrote into the result of the PREVIOUS Marshal call", typeName, snapshot, enc)
+				return
+			}
+			enc = snapshot // (the original is now the 'previous' one and will be scribbled over)
+		}
 		key = c.Zone + typeName + string(enc)
 		for _, b := range enc[8:] {
 			if b != 0 {
@@ -147,8 +170,12 @@ func decideRTNoZone(c rtCase) (*rp.Fail, string, bool) {
 		decode := func(b []byte) (reflect.Value, error) {
 			out := reflect.New(v.Type())
 			var err error
+			before := string(b)
 			if p := try(func() { err = codec.Unmarshal(b, out.Interface()) }); p != nil {
 				return out, fmt.Errorf("PANIC: %v", p)
+			}
+			if err == nil && string(b) != before {
+				return out, fmt.Errorf("decoding MODIFIED the caller's buffer: %x -> %x", before, b)
 			}
 			return out.Elem(), err
 		}
